@@ -536,6 +536,7 @@ def run(rep, tier, seed, replay):
     tie_ok = c2.returncode == 0
     cov = re.search(r"=\s*\((\d+),\s*(\d+),\s*(\d+)\)", c2.stdout or "")
     ops_cov = re.search(r"=\s*\((\d+),\s*(\d+)\)\s*:", c2.stdout or "")
+    tl_cov = re.findall(r"=\s*\((\d+),\s*(\d+)\)\s*:", c2.stdout or "")
     depth_cov = re.search(r"=\s*\((\d+),\s*(\d+),\s*(\d+),\s*(\d+)\)", c2.stdout or "")
     tie_breaks = []
     if not tie_ok:
@@ -779,6 +780,7 @@ def run(rep, tier, seed, replay):
         "theorem_class_coverage": {"scripts": int(cov.group(1)), "ext_safe_as_written": int(cov.group(2)), "ext_safe_pre_fix_rules": int(cov.group(3))} if cov else None,
         "ops_class_coverage": {"non_tap_scripts_with_sat_figure": int(ops_cov.group(1)), "in_ops_covered": int(ops_cov.group(2))} if ops_cov else None,
         "depth_class_coverage": {"well_typed_scripts_with_sat_figure": int(depth_cov.group(1)), "in_depth_covered": int(depth_cov.group(2)), "in_depth_covered_pre_fix_rules": int(depth_cov.group(3))} if depth_cov else None,
+        "timelock_class_coverage": {"scripts": int(tl_cov[-1][0]), "in_tl_total": int(tl_cov[-1][1])} if len(tl_cov) >= 2 else None,
         "comparisons": dict(st), "histogram": dict(hist), "samples": samples,
         "execution_traces": {"summary": tsum, "histogram": thist},
         "tie_checked_in_coq": tie_ok,
